@@ -24,6 +24,7 @@ from .core import (Interp, TupleV, Closure, FuncRef, ClassRef, ExtRef, ObjV, Bou
 from .loader import Inconclusive, norm, dotted_of
 
 NONE = ("const", None)
+VALUE_CONVERSIONS = {"numpy.array", "numpy.asarray", "numpy.asanyarray", "numpy.atleast_1d", "numpy.atleast_2d", "numpy.copy", "copy.deepcopy", "copy.copy"}
 VALUE_IDENTITY_EXT = {"numpy.asarray", "numpy.asanyarray"}
 CLOSURES = {}      # (line, col) -> Closure, so that rules can look into lambda bodies
 OPS = {ast.Add: "+", ast.Sub: "-", ast.Mult: "*", ast.Div: "/", ast.FloorDiv: "//", ast.Mod: "%", ast.Pow: "**",
@@ -273,7 +274,7 @@ class Sym(Interp):
         if ov is None:
             return bv
         b, o = T(bv), T(ov)
-        return b if b == o else ("phi", T(tv), b, o)
+        return b if b == o else self.mkphi(T(tv), b, o)
 
     def h_iter(self, v, n, ctx):
         t = T(v) if not isinstance(v, TupleV) else None
@@ -589,6 +590,18 @@ class Sym(Interp):
                 return self.phi_env(p1[k][0], e1, e2) if p1[k][1] else self.phi_env(p1[k][0], e2, e1)
         return super().join_env(e1, e2)
 
+    def mkphi(self, cond, ta, tb):
+        """phi(cond, a, b); when one side is a value-preserving conversion of the other (np.array(x) / np.asarray(x) /
+        np.atleast_nd(x) without dtype - `if not isinstance(x, np.ndarray): x = np.array(x)`) both sides hold the same values:
+        the unconverted term stands for them (copy-ness is the ownership domain's business)"""
+        def conv_of(t, x):
+            return isinstance(t, tuple) and len(t) == 4 and t[0] == "ext" and t[1] in VALUE_CONVERSIONS and len(t[2]) == 1 and t[2][0] == x and not t[3]
+        if conv_of(ta, tb):
+            return tb
+        if conv_of(tb, ta):
+            return ta
+        return ("phi", cond, ta, tb)
+
     def phi_env(self, cond, o1, o2):
         if o1 is None:
             return o2
@@ -610,7 +623,7 @@ class Sym(Interp):
                     out[k] = a if self.key(a) == self.key(b) else ("phi", cond, T(a), T(b))
                 else:
                     ta, tb = T(a), T(b)
-                    out[k] = a if ta == tb else ("phi", cond, ta, tb)
+                    out[k] = a if ta == tb else self.mkphi(cond, ta, tb)
             else:
                 present = o1.get(k, o2.get(k))
                 out[k] = ("phi", cond, T(present), ("unbound", k)) if k in o1 else ("phi", cond, ("unbound", k), T(present))
